@@ -8,10 +8,13 @@ import Cellml.Expr.Convert
     (`get_conversion_factor`). The pattern table of `harness/code_specs/convert.py` binds each of these leaves to one
     accessor below, which reads the hand model's expression type `E` (`Cellml/Expr/Basic.lean`).
 
-    Representation: a SymPy object is an `E`. `Add`, `Mul`, `And`, `Or`, `Max`/`Min`/`Mod` nodes are seen with the TWO
-    operands of the `E` node as `args` (the serialiser left-nests n-ary nodes, see `Expr/Basic.lean`); a `Piecewise` is
-    seen with ALL its `(piece, cond)` pairs as `args` (the chain `ite c t rest … undef`), each pair being the one-piece
-    chain `ite c t undef`. A unit-or-`None` value is an `Option Container` everywhere (`PyUnit`).
+    Representation: a SymPy object is an `E`. SymPy's `Add`, `Mul`, `And`, `Or`, `Max`/`Min` nodes are flat n-ary; the
+    serialiser left-nests them (`Add(a,b,c)` is `add (add a b) c`, see `Expr/Basic.lean`). `args` shows the python loops
+    the FLAT operand list read off the left spine of the `E` node (`addArgs`, `mulArgs`, `andArgs`, `orArgs`, `fnArgs f`:
+    the spine is followed as long as the node has the same class - and, for `fnN`, the same function name), and `rebuild`
+    (`expr.func(*new_args)`) left-nests a flat list again. A `Piecewise` is seen with ALL its `(piece, cond)` pairs as
+    `args` (the chain `ite c t rest … undef`), each pair being the one-piece chain `ite c t undef`. A unit-or-`None`
+    value is an `Option Container` everywhere (`PyUnit`).
     Core Lean only. -/
 
 set_option linter.constructorNameAsVariable false
@@ -80,9 +83,41 @@ def pwArgs : E → List E
   | .ite c t el => mkPair t c :: pwArgs el
   | _ => []
 
+/-- the flat operands of a SymPy `Add`: the left spine of `add` nodes (`add (add a b) c` is `Add(a, b, c)`) -/
+def addArgs : E → List E
+  | .add a b => addArgs a ++ [b]
+  | e => [e]
+
+/-- the flat operands of a SymPy `Mul` -/
+def mulArgs : E → List E
+  | .mul a b => mulArgs a ++ [b]
+  | e => [e]
+
+/-- the flat operands of a SymPy `And` -/
+def andArgs : E → List E
+  | .and a b => andArgs a ++ [b]
+  | e => [e]
+
+/-- the flat operands of a SymPy `Or` -/
+def orArgs : E → List E
+  | .or a b => orArgs a ++ [b]
+  | e => [e]
+
+/-- the flat operands of an n-ary function `f` (`Max`, `Min`, …): the left spine of `fnN` nodes WITH THE SAME NAME.
+    (A nested call of the same function, `Mod(Mod(a, b), c)`, has the same wire form as a flat 3-ary call and is read
+    as flat; for the conversion both readings give the same result, see `fn_loop`.) -/
+def fnArgs (f : String) : E → List E
+  | .fnN g a b => if f = g then fnArgs f a ++ [b] else [.fnN g a b]
+  | e => [e]
+
 /-- `expr.args` -/
 def args : E → List E
-  | .add a b | .mul a b | .pow a b | .fnN _ a b | .rel _ a b | .and a b | .or a b => [a, b]
+  | .add a b => addArgs (.add a b)
+  | .mul a b => mulArgs (.mul a b)
+  | .and a b => andArgs (.and a b)
+  | .or a b => orArgs (.or a b)
+  | .fnN f a b => fnArgs f (.fnN f a b)
+  | .pow a b | .rel _ a b => [a, b]
   | .abs a | .floor a | .ceil a | .fn1 _ a | .not a => [a]
   | .ite c t el => pwArgs (.ite c t el)
   | _ => []
@@ -111,15 +146,17 @@ def mkPiecewise : List E → E
   | [] => .undef
   | p :: ps => .ite (pairOf p).2 (pairOf p).1 (mkPiecewise ps)
 
-/-- `expr.func(*new_args)`: the node of the same class (and function name / relation) with new operands -/
+/-- `expr.func(*new_args)`: the node of the same class (and function name / relation) with new operands. A flat
+    operand list of an n-ary class is left-nested again (`Add(x, y, z)` is `add (add x y) z`; one operand: SymPy's
+    `Add(x)` / `Mul(x)` / `And(x)` / `Or(x)` / `Max(x)` is `x`). -/
 def rebuild : E → List E → E
-  | .add .., [a, b] => .add a b
-  | .mul .., [a, b] => .mul a b
+  | .add .., x :: xs => xs.foldl E.add x
+  | .mul .., x :: xs => xs.foldl E.mul x
+  | .fnN f .., x :: xs => xs.foldl (E.fnN f) x
+  | .and .., x :: xs => xs.foldl E.and x
+  | .or .., x :: xs => xs.foldl E.or x
   | .pow .., [a, b] => .pow a b
-  | .fnN f .., [a, b] => .fnN f a b
   | .rel r .., [a, b] => .rel r a b
-  | .and .., [a, b] => .and a b
-  | .or .., [a, b] => .or a b
   | .abs _, [a] => .abs a
   | .floor _, [a] => .floor a
   | .ceil _, [a] => .ceil a
